@@ -6,11 +6,11 @@ HERE="$(cd "$(dirname "$0")" && pwd)"
 VENV="$HERE/.venv"
 WHEELS=/opt/veriftools/wheels
 export PIP_NO_INDEX=1
-if [ ! -x "$VENV/bin/python" ] || ! "$VENV/bin/python" -c "import z3, crosshair, numpy, lmfit" >/dev/null 2>&1; then
+if [ ! -x "$VENV/bin/python" ] || ! "$VENV/bin/python" -c "import z3, crosshair, numpy, lmfit, cvc5" >/dev/null 2>&1; then
     rm -rf "$VENV"
     /venv/bin/python -m venv "$VENV"
     SP="$("$VENV/bin/python" -c 'import site; print(site.getsitepackages()[0])')"
     echo "import site; site.addsitedir('/venv/lib/python3.12/site-packages')" > "$SP/verif_overlay.pth"
-    "$VENV/bin/pip" install -q --no-index --find-links "$WHEELS" z3-solver crosshair-tool >/dev/null
+    "$VENV/bin/pip" install -q --no-index --find-links "$WHEELS" z3-solver crosshair-tool cvc5 >/dev/null
     "$VENV/bin/python" -c "import z3, crosshair, numpy, lmfit; print('verif venv ready: z3', z3.get_version_string())"
 fi
